@@ -50,6 +50,9 @@ class IVFC(NamedTuple):
         for lvl in range(1, 5):
             offs = 0x10 + ((lvl - 1) * 0x18)
             block_size_log2 = readle(data[offs+0x10:offs+0x14])
+            if block_size_log2 >= 64:
+                # offsets and sizes are 64-bit, and 1 << 2**32 alone is half a gigabyte
+                raise InvalidHeaderError(f'IVFC level {lvl} block size exponent is too large ({block_size_log2})')
             level_data = LevelData(offset=readle(data[offs:offs+0x8]),
                                    size=readle(data[offs+0x8:offs+0x10]),
                                    block_size_log2=block_size_log2,
